@@ -223,6 +223,23 @@ where
         Ok(())
     }
 
+    /// Delete the most recent events of a single event log.
+    pub fn delete_last_events(
+        &self,
+        log_type: EventLogType,
+        account_or_folder_id: i64,
+        count: usize,
+    ) -> Result<usize, SqlError> {
+        let table: EventTable = log_type.into();
+        let query = format!(
+            "DELETE FROM {table} WHERE event_id IN (SELECT event_id FROM {table} WHERE {id}=?1 ORDER BY event_id DESC LIMIT ?2)",
+            table = table.as_str(),
+            id = table.id_column(),
+        );
+        let mut stmt = self.conn.prepare_cached(&query)?;
+        stmt.execute((account_or_folder_id, count as i64))
+    }
+
     /// Insert events into an event log table.
     pub fn insert_events(
         &self,
